@@ -177,6 +177,25 @@ Theorem C19_spawn_gate_uses_inherited_kill :
 Proof. exact spawn_gate_is_inherited. Qed.
 Print Assumptions C19_spawn_gate_uses_inherited_kill.
 
+(* the runtime kill-date update (MvTime): every value but 0 is STORED, also one that has already
+   passed; the next wait() then returns to the contact loop only at instants not after it, and when
+   the value has passed it sets closing at once (no further ordinary exchange) *)
+Theorem C19_kill_update_is_stored_and_obeyed :
+  forall c u dl now now', u <> 0 ->
+  kill_update u = Some ((u - epoch0_unix) * 1000000000) /\
+  (wait_step impl_recheck (with_kill c (kill_update u)) dl now false = (now', false) ->
+   now' <= (u - epoch0_unix) * 1000000000).
+Proof.
+  intros c u dl now now' Hu. exact (conj (kill_update_stores u Hu) (kill_update_then_wait c u dl now now' Hu)).
+Qed.
+Print Assumptions C19_kill_update_is_stored_and_obeyed.
+
+Theorem C19_kill_update_already_passed_closes :
+  forall c u dl now, u <> 0 -> (u - epoch0_unix) * 1000000000 < now -> k_work c = None ->
+  wait_step impl_recheck (with_kill c (kill_update u)) dl now false = (now, true).
+Proof. exact kill_update_passed_closes. Qed.
+Print Assumptions C19_kill_update_already_passed_closes.
+
 (* regression documentation: the original wait() (before fix commit 9e0f24a: kill date tested only BEFORE the sleep) also
    started an ordinary exchange after the date -- two Connects after it; and never more than two
    when time does not run backwards *)
